@@ -15,7 +15,9 @@ of the store model the real put_item is observed to implement.
 Binding (spec -> code, complete): every path of that graph is cut into runs (idle -> ... -> idle) and every
 run is executed by the real PipelineManager.publish() in a scratch work dir: os.listdir returns the listings
 of the behaviour, the store is the real LocalPipelineIo behind a proxy that injects the behaviour's fault
-(BaseException = crash, OSError = failed transfer) at the entry of a put_item, after k bytes of its source
+(Crash in two realisations: publish() in a forked child that dies by os._exit(137) at the crash point - nothing of the
+code under test runs afterwards, the parent examines the disk, the re-run happens in another process - and a
+BaseException unwinding publish(); OSError = failed transfer) at the entry of a put_item, after k bytes of its source
 stream (so the real put_item leaves a really truncated item) or at its exit, or - action Refuse - INSIDE the real
 put_item by making every open-for-writing below the item's store directory raise ENOSPC (builtins.open, io.open,
 os.open), so that the clean-up path of put_item runs with no destination / temporary file created;
@@ -36,10 +38,12 @@ temporary suffix is not) is published once per listing order and the safety sent
 import contextlib
 import copy
 import errno
+import functools
 import hashlib
 import io
 import json
 import os
+import pickle
 import re
 import shutil
 import types
@@ -62,7 +66,13 @@ K_INDEX_TRUNC = "C18:refresh:skips-image-with-incomplete-index"
 # realisations of the spec action StoreFail: a real RLIMIT_FSIZE of 0 / half / all-but-one byte of the item while the real
 # put_item runs (the kernel refuses the write with EFBIG: at a write() inside the copy for an item larger than the
 # stream buffer, at the flush of the buffered tail in close() otherwise), or the rename onto the item's name failing
+# realisations of the spec action Crash: "kill" = publish() runs in a forked child which dies by os._exit(137) at the crash
+# point (no except / finally / with of the code under test runs, userspace buffers are lost; the parent examines the disk
+# and the re-run happens in another process); "interrupt" = a BaseException (KeyboardInterrupt-like) unwinds publish()
+CRASH_VARIANTS = ["kill", "interrupt"]
+NAMES = {"data.png", INDEX, "index_rel.wtml", "thumb.jpg", "0_0.png"}
 STORE_VARIANTS = ["fsize:0", "fsize:half", "fsize:tail", "replace"]
+STORE_VARIANTS_SMALL = ["fsize:tail", "replace"]     # an item that fits into the stream buffer: every write failure surfaces at close()
 BIG = "data.png"        # this file is larger than two stream buffers, the others fit into one
 
 
@@ -134,7 +144,10 @@ class Graph(object):
                 for a in acts:
                     acc.append((a, t))
                     if self.state[t]["pc"] == "idle":
-                        for v in (STORE_VARIANTS if a == "StoreFail" else [None]):
+                        sk = self.state[k]
+                        big = a == "StoreFail" and sk["order"][sk["k"] - 1] == BIG
+                        for v in ((STORE_VARIANTS if big else STORE_VARIANTS_SMALL) if a == "StoreFail" else
+                                  CRASH_VARIANTS if a == "Crash" else [None]):
                             out.append((list(acc), v))
                     else:
                         dfs(t, acc)
@@ -204,6 +217,7 @@ class TransferFailed(OSError):
     pass
 
 
+@functools.lru_cache(maxsize=None)
 def content(img, fn):
     head = ("%s/%s|" % (img, fn)).encode()
     if fn == BIG:
@@ -298,6 +312,8 @@ class FaultStream(object):
         limit = self.CHUNK
         if self._after is not None:
             if self.sent >= self._after:
+                if callable(self._exc):
+                    self._exc()
                 raise self._exc
             limit = min(limit, self._after - self.sent)
         data = self._src.read(limit)
@@ -328,6 +344,9 @@ class Bench(object):
         self._listdir = os.listdir
         self._refresh_memo = {}
         self.current = None
+        self.park = os.path.join(root, "park")
+        os.makedirs(self.park, exist_ok=True)
+        self.parked, self.nparked = [], 0
         self.template = pipeline.PipelineManager(self.work)      # __init__ only reads the store configuration
         self.real_io = pipeline.PipelineIo.load_from_config(os.path.join(self.work, "toasty-store-config.yaml"))
         class Cand(pipeline.CandidateInput):
@@ -380,7 +399,11 @@ class Bench(object):
             if rel not in snap or (snap[rel] is None) != (cur[rel] is None):
                 p = os.path.join(root, rel)
                 if cur[rel] is None:
-                    os.rmdir(p)
+                    # rmdir costs milliseconds on the scratch file system, rename microseconds: park the empty directory
+                    self.nparked += 1
+                    q = os.path.join(self.park, "d%d" % self.nparked)
+                    os.rename(p, q)
+                    self.parked.append(q)
                 else:
                     os.remove(p)
         for rel in sorted(snap):
@@ -388,7 +411,11 @@ class Bench(object):
                 continue
             p = os.path.join(root, rel)
             if snap[rel] is None:
-                os.makedirs(p, exist_ok=True)
+                if not os.path.isdir(p):
+                    if self.parked:
+                        os.rename(self.parked.pop(), p)
+                    else:
+                        os.makedirs(p)
             else:
                 with open(p, "wb") as f:
                     f.write(snap[rel])
@@ -458,6 +485,40 @@ class Bench(object):
     # ---- one run --------------------------------------------------------------------------------
     def run(self, plan, model_atomic):
         """Execute the real publish() once according to `plan`; returns a dict of observations."""
+        if not (plan.fault and plan.fault["kind"] == "Crash" and plan.fault.get("variant") == "kill"):
+            return self._run(plan, model_atomic, None)
+        # a hard crash: publish() runs in a forked child that dies at the crash point; its observations come through a pipe
+        r, w = os.pipe()
+        pid = os.fork()
+        if pid == 0:
+            code = 3
+            try:
+                os.close(r)
+
+                def send(obj):
+                    with os.fdopen(w, "wb") as f:
+                        pickle.dump(obj, f)
+                try:
+                    res = self._run(plan, model_atomic, send)      # does not return if the crash point is reached
+                    send(res)
+                    code = 0
+                except BaseException:  # noqa
+                    import traceback
+                    send({"machinery": traceback.format_exc()})
+            finally:
+                os._exit(code)
+        os.close(w)
+        with os.fdopen(r, "rb") as f:
+            data = f.read()
+        _, status = os.waitpid(pid, 0)
+        if not data:
+            raise RuntimeError("the forked publish() died without a report (wait status %d)" % status)
+        res = pickle.loads(data)
+        if "machinery" in res:
+            raise RuntimeError("harness failure in the forked publish():\n" + res["machinery"])
+        return res
+
+    def _run(self, plan, model_atomic, send):
         bench = self
         drifts = []
         alarms = []        # (key, message)
@@ -531,7 +592,7 @@ class Bench(object):
                 flt = plan.fault if (plan.fault and plan.fault["ordinal"] == n) else None
                 exc = None
                 if flt:
-                    exc = (SimulatedCrash("crash") if flt["kind"] == "Crash" else
+                    exc = (die if (flt["kind"] == "Crash" and send) else SimulatedCrash("crash") if flt["kind"] == "Crash" else
                            TransferFailed(errno.ENOSPC, "No space left on device") if flt["kind"] == "Refuse" else
                            TransferFailed(errno.EIO, "Input/output error") if flt["kind"] == "StoreFail" else
                            TransferFailed("transfer failed"))
@@ -539,6 +600,8 @@ class Bench(object):
                 chunk = 4099 if size > 1000 else FaultStream.CHUNK
                 if flt and flt["where"] == "entry":
                     st["injected"] = True
+                    if callable(exc):
+                        exc()
                     raise exc
                 after = None
                 if flt and flt["where"] == "during":
@@ -583,7 +646,18 @@ class Bench(object):
                     compare(exp["post"], "after put #%d %s" % (n + 1, list(path)))
                 if flt and flt["where"] == "exit":
                     st["injected"] = True
+                    if callable(exc):
+                        exc()
                     raise exc
+
+        def result(outcome, err):
+            return {"outcome": outcome, "error": err, "sync": st["sync"], "drifts": drifts, "alarms": alarms, "calls": st["calls"],
+                    "na": bool(st.get("na"))}
+
+        def die():
+            st["injected"] = True
+            send(result("crashed", None))
+            os._exit(137)
 
         mgr = copy.copy(self.template)          # a re-run is a new process: a fresh manager object
         mgr._pipeio = Proxy(mgr._pipeio)
@@ -611,8 +685,7 @@ class Bench(object):
         if st["sync"] and not plan.fault and st["nput"] != len(plan.puts):
             st["sync"] = False
             drift("%d transfers, spec %d" % (st["nput"], len(plan.puts)))
-        return {"outcome": outcome, "error": err, "sync": st["sync"], "drifts": drifts, "alarms": alarms, "calls": st["calls"],
-                "na": bool(st.get("na"))}
+        return result(outcome, err)
 
 
 def probe_store_model(root):
@@ -641,10 +714,18 @@ def probe_store_model(root):
 # ------------------------------------------------------------------------------------------------
 
 def digest(snap):
+    """Identity of the disk contents.  Names of stray store entries (temporary files a killed process left behind) carry a
+    process id: digit runs in names that are not item names are masked, so that equal contents are recognised as equal."""
+    items = []
+    for k in snap:
+        parts = k.split("/")
+        if parts[0] == "store" and len(parts) == 3 and parts[2] not in NAMES:
+            parts[2] = re.sub(r"\d+", "#", parts[2])
+        items.append(("/".join(parts), b"\0" if snap[k] is None else b"\1" + snap[k]))
     h = hashlib.sha1()
-    for k in sorted(snap):
+    for k, v in sorted(items):
         h.update(k.encode())
-        h.update(b"\0" if snap[k] is None else b"\1" + snap[k])
+        h.update(v)
         h.update(b"\n")
     return h.hexdigest()
 
@@ -663,6 +744,7 @@ class Walker(object):
         self.stray = 0
         self.weak_whole = 0     # quiescent states where refresh skips an image whose index.wtml itself is truncated
         self.samples = []
+        self._snap_id = None
 
     def finding(self, key, msg, hist, real):
         f = self.findings.get(key)
@@ -741,7 +823,8 @@ class Walker(object):
                 "rename" if f["variant"] == "replace" else "write (real file-size limit, %s)" % f["variant"], f["image"], f["file"])
         if f["kind"] == "Refuse":
             return "store refusing (ENOSPC) to create the file for %s/%s" % (f["image"], f["file"])
-        return "%s %s the transfer of %s/%s" % ("crash" if f["kind"] == "Crash" else "failed transfer",
+        return "%s %s the transfer of %s/%s" % (("crash (%s)" % {"kill": "process killed, os._exit", "interrupt": "BaseException"}.get(f.get("variant"), "?"))
+                                                if f["kind"] == "Crash" else "failed transfer",
                                                 {"entry": "before", "during": "during", "exit": "after"}[f["where"]], f["image"], f["file"])
 
     def step(self, key, snap, plan, hist):
@@ -749,7 +832,10 @@ class Walker(object):
         b = self.bench
         b.restore(snap)
         before = b.real_state()
-        self.skipped_before = b.refresh_skips(digest(snap))
+        if self._snap_id != id(snap):
+            self._snap_id, self._snap_dg = id(snap), digest(snap)
+            self._snap_keep = snap
+        self.skipped_before = b.refresh_skips(self._snap_dg)
         res = b.run(plan, self.atomic)
         self.runs += 1
         if res["na"]:
@@ -764,6 +850,21 @@ class Walker(object):
         real, skips = self.monitors(plan, hist2, before, res, after, dg)
         if b.stray(after):
             self.stray += 1
+        if plan.fault is not None and not res["sync"] and not res["na"]:
+            # the run left the spec: "re-running publish completes the job" is then judged directly, by one fault-free run
+            todo = sorted(i for i in self.files if os.path.isdir(os.path.join(b.work, "approved", i)))
+            res2 = {"outcome": "returned", "error": None}
+            if todo:
+                ls = [(i, sorted(b._listdir(os.path.join(b.work, "approved", i)))) for i in todo]
+                res2 = b.run(FreePlan(ls[0][0], ls[0][1], ls[1:]), self.atomic)
+                self.runs += 1
+                b.current = None            # the disk no longer is the snapshot taken above
+            real2 = b.real_state()
+            if res2["outcome"] != "returned" or not all(real2["loc"][i] == "published" and all(v == "complete" for v in real2["store"][i].values())
+                                                        for i in self.files):
+                self.finding(K_RERUN, "after the %s a fault-free re-run of publish() %s and left %s"
+                             % (self.how(plan, res), "returned" if res2["outcome"] == "returned" else "raised %s" % res2["error"],
+                                json.dumps(real2, sort_keys=True)), hist2, real2)
         if plan.puts:
             self.distinct.add((plan.key0, json.dumps(plan.describe(), sort_keys=True)))
         if len(self.samples) < 2 and plan.fault and plan.fault["where"] == "during" and len(hist2) > 1:
@@ -876,9 +977,10 @@ def replay_graph(ctx, graph, atomic, share, tag):
 class FreePlan(object):
     """A run without a spec behaviour behind it (physical scenario): only the listings are imposed."""
 
-    def __init__(self, img, listing):
-        self.queue = [img]
-        self.images = [{"img": img, "listing": list(listing), "order": None, "pre": None}]
+    def __init__(self, img, listing, more=()):
+        both = [(img, listing)] + list(more)
+        self.queue = [i for i, _ in both]
+        self.images = [{"img": i, "listing": list(ls), "order": None, "pre": None} for i, ls in both]
         self.puts = []
         self.fault = None
         self.start = {"faults": 0}
@@ -985,8 +1087,8 @@ def run(ctx):
                 "distinct = distinct (spec idle state, run) pairs with at least one transfer")
     A, B, C, D, E = "data.png", INDEX, "index_rel.wtml", "thumb.jpg", "0_0.png"
     if ctx.quick:
-        suites = [("q", 2, [{"imgA": {A, B, C}}, {"imgA": {A, D}}, {"imgA": {A, B}, "imgB": {B, D}}]),
-                  ("q4", 1, [{"imgA": {A, B, C, D}}])]
+        suites = [("q", 2, [{"imgA": {A, B, C}}, {"imgA": {A, D}}]),
+                  ("q1", 1, [{"imgA": {A, B, C, D}}, {"imgA": {A, B}, "imgB": {B, D}}])]
     else:
         suites = [("t4", 2, [{"imgA": {A, B, C, D}}, {"imgA": {A, C, D}}, {"imgA": {A, B, C}, "imgB": {B, D}}, {"imgA": {B}}]),
                   ("t3", 3, [{"imgA": {A, B, C}}, {"imgA": {A, D}}, {"imgA": {A, B}, "imgB": {B, D}}]),
